@@ -47,6 +47,11 @@ structure Cfg where
   stopAfterMeta : Bool := false
   /-- `Config.MaxPieces` (checked by `Session.parseInfo`, also for an info dictionary received from peers) -/
   maxPieces : Nat := 65536
+  /-- per piece: the SHA-1 recorded in the info dictionary is the hash of the piece's true content.  It
+  is by construction for every piece that holds data (the harness hashes the content it serves); for a
+  piece that lies entirely inside BEP 47 padding files the creator of the torrent may have recorded
+  anything — `false` = the recorded hash is not the hash of zeroes.  Missing entries mean `true`. -/
+  padHashOK : List Bool := []
   deriving Repr, Inhabited
 
 def Cfg.n (c : Cfg) : Nat := c.plens.length
@@ -92,6 +97,15 @@ def npAll (flens : List Nat) (pl length : Nat) : Nat → NPCur → List (List Se
 /-- Sections of piece `i`. -/
 def Cfg.sections (c : Cfg) (i : Nat) : List Sect :=
   (npAll c.flens c.pl c.flens.sum c.n {}).getD i []
+
+/-- Piece `i` lies entirely inside padding files: it has no section in a file that is stored (the
+test the piece writer makes before it calls the storage). -/
+def Cfg.padOnly (c : Cfg) (i : Nat) : Bool :=
+  ((c.sections i).filter fun sc => !(c.fpads.getD sc.file false)).isEmpty
+
+/-- The recorded hash of piece `i` is the hash of its true content (`padHashOK` only speaks about
+padding-only pieces). -/
+def Cfg.padOK (c : Cfg) (i : Nat) : Bool := c.padHashOK.getD i true || !c.padOnly i
 
 /-- Messages a peer can send (the subset the model interprets). -/
 inductive Msg
@@ -207,8 +221,10 @@ structure St where
 
 def St.n (s : St) : Nat := s.cfg.n
 
-/-- Piece `i`'s non-padding bytes on disk are the true content. -/
-def St.diskOKi (s : St) (i : Nat) : Bool := !(s.bad.any fun b => b.1 = i)
+/-- Piece `i` as it is on disk matches its recorded hash: its non-padding bytes are the true content,
+and the recorded hash is the hash of the true content (which it may fail to be for a padding-only
+piece only). -/
+def St.diskOKi (s : St) (i : Nat) : Bool := !(s.bad.any fun b => b.1 = i) && s.cfg.padOK i
 
 def St.diskOK (s : St) : List Bool := (List.range s.n).map s.diskOKi
 
@@ -571,12 +587,14 @@ def processQueued (m : M) : M :=
       p.queued.foldl (fun m msg => if (m.1.findPeer k).isSome then handlePeerMessage m k msg else m) m) m
 
 /-- `markPaddingPieces()` (fix for finding C10-F2): pieces without any block are done once their hash
-matches zeroes — which it does for the true content, padding being zeroes. -/
+matches zeroes — which it does for the true content, padding being zeroes, unless the recorded hash
+is wrong (`VerifyHash(make([]byte, pi.Length))` fails: the piece is left alone, never done). -/
 def St.markPaddingPieces (s : St) : St :=
   match s.bf with
   | none => s
   | some b =>
-    let idx := (List.range s.n).filter fun i => (s.cfg.blocks.getD i []).isEmpty && !(s.done.getD i false)
+    let idx := (List.range s.n).filter fun i =>
+      (s.cfg.blocks.getD i []).isEmpty && !(s.done.getD i false) && s.cfg.padOK i
     { s with done := idx.foldl (fun d i => setAt d i true) s.done,
              bf := some (idx.foldl (fun d i => setAt d i true) b) }
 
@@ -683,7 +701,10 @@ def writerRun (m : M) (w : WriteJob) : M :=
   let secs := (s.cfg.sections w.piece).filter fun sc => !(s.cfg.fpads.getD sc.file false)
   let stale := w.gen ≠ s.gen || !s.loaded
   match secs with
-  | [] => handlePieceWriteDone m w false
+  | [] =>
+    -- a piece without stored bytes (no download of such a piece ever completes: it has no blocks); "the
+    -- hash matched" can only have been true if the recorded hash is the hash of zeroes
+    handlePieceWriteDone m { w with good := w.good && s.cfg.padOK w.piece } false
   | sc :: _ =>
     if stale then
       let m := onSt m fun s => { s with sto := s.sto ++ [s!"writeclosed:{fileName s.cfg sc.file}:{sc.off}:{sc.len}"] }
